@@ -594,7 +594,7 @@ pub fn run(ctx: &Ctx) -> i32 {
         tier,
         seed: ctx.seed,
         level: "exploration",
-        rule: "two scenario classes on virtual time (2-30 min spans). A: a node whose High peers (1-6, 1-4 addresses each) are all black-holed plus never-dial entries (itself, Allowed, Never, empty address list); dial attempts are read off the fabric tap (first Initial per source connection id) and checked for who/rotation (k-th consecutive failure -> address k mod n)/spacing lower bound min(max,k*step)/in-flight cap/keeps-dialing upper bounds. B: reachable High peers; bounded success after insertion, re-dial after loss within interval+1s, recovery after k failures within min(max,k*step)+2 intervals+connect, no dial while connected. distinct by (class, interval, cap, table shape / which clauses were exercised)".into(),
+        rule: "two scenario classes on virtual time (2-30 min spans). A: a node whose High peers (1-6, 1-4 addresses each) are all black-holed plus never-dial entries (itself, Allowed, Never, empty address list); dial attempts are read off the fabric tap (first Initial per source connection id) and checked for who/rotation (k-th consecutive failure -> address k mod n)/spacing lower bound min(max,k*step)/in-flight cap/keeps-dialing upper bounds. B: reachable High peers; bounded success after insertion, re-dial after loss within interval+1s, recovery after k failures within min(max,k*step)+2 intervals+connect, no dial while connected. distinct by (class, interval, cap, table shape / which clauses were exercised) In both classes the node may hold 'company': established connections to parties outside its High table (strangers that dialed in, strangers it dialed explicitly, Allowed entries), which must change nothing.".into(),
         assumptions: vec![
             "liveness clauses decided as the bounded-progress bounds the statement gives, in virtual time".into(),
             "tick jitter (<1 s, random) is not controlled; bounds include it".into(),
